@@ -121,6 +121,8 @@ func (h *Handler) receive(ctx context.Context, conn *net.UDPConn, queue chan dat
 					h.onError(conn, core.InvalidRequestError{})
 				case length > h.Service.MaxRequestLength:
 					h.sendResponse(ctx, queue, index, nil, core.ErrRequestEntityTooLarge, addr)
+				case length != n-8:
+					h.onError(conn, core.InvalidRequestError{})
 				default:
 					body := make([]byte, length)
 					copy(body, buffer[8:])
